@@ -6,6 +6,8 @@ CONSTANTS
   Prog <- RProg
   Modes = {"fork", "spawn"}
   QInit = {TRUE}
+  Creator <- NoCreator
+  Kind <- AllThreading
   MaxToggle = 0
   CopyStep = TRUE
   Variant = "code"
@@ -15,6 +17,7 @@ INVARIANT OwnReply
 INVARIANT Reentrant
 INVARIANT NoDeadlock
 INVARIANT CleanEnd
+INVARIANT HandOverHeld
 PROPERTY AbsStep
 VIEW View
 CHECK_DEADLOCK FALSE
